@@ -11,9 +11,11 @@ LEVEL_TEXT = ("Proved in Coq for every signature scheme/encoding satisfying the 
               "signature by key k over fields f1 arriving with fields f2 is yielded iff f1 = f2, k is the claimed author's key and the version "
               "is supported), C16_tamper_rejected, C16_forged_rejected, C16_timestamps_strictly_increase (any clock script: all publishes "
               "succeed, timestamps strictly increase, messages are yielded by subscribers), C16_no_two_equal_messages, "
-              "C16_premises_satisfiable, C16_oracle_pub_sound. Tied to p2panda/src/streams/ephemeral_stream.rs on every run through the real "
+              "C16_premises_satisfiable, C16_oracle_pub_sound, C16_sequence_yields_authentic_only (a subscription run over any sequence of "
+              "incoming items yields exactly the authentic ones in order, whatever precedes an item), C16_tampered_copy_after_original_rejected, "
+              "C16_oracle_seq_sound. Tied to p2panda/src/streams/ephemeral_stream.rs on every run through the real "
               "decode/verify path of a subscription built with the crate's own constructor: honest, field-tampered (every field), re-signed "
-              "(other key, same claimed author), damaged-signature, foreign-signature messages, really published messages with one field changed; byte-level tampering of honest messages at "
+              "(other key, same claimed author), damaged-signature, foreign-signature messages, really published messages with one field changed, sequences of all of these on one subscription (bad copy directly after / after a duplicate of / before its original); byte-level tampering of honest messages at "
               "every byte position, every truncation, trailing bytes; the real publisher under a scripted mock clock (forwards, equal, "
               "backwards) with its bytes decoded, compared and fed back into a subscription.")
 LEVEL_NOTE = ("Trusted (premises of the theorems, not verified): Ed25519 verify accepts exactly the key owner's signature and signatures do "
@@ -28,7 +30,10 @@ TRUSTED = ["modelled not verified: Ed25519, ciborium encode/decode (byte level),
 RULE = ("quick: ~300 forge cases (honest + each single field of version/author/time/logical/body changed after signing, re-signed by "
         "another key, damaged signature, signature of another message; boundary timestamps; random mixes), byte tampering of 2 honest "
         "messages at every position 0..149 x 3 masks + every truncation + trailing bytes, 120 remix cases (a really published message, one field "
-        "changed under the original signature), 150 publisher scripts (<= 8 publishes, equal "
+        "changed under the original signature), ~350 seq cases (a sequence of such messages on ONE subscription, drained per message or once: "
+        "every tampered field / re-signed / damaged copy directly after its original, after a duplicate of it, after another valid message, "
+        "before it; random sequences of 2..10), 192 rseq cases (really published original and its remixed copy on one subscription: O R, "
+        "O O R, R O, O R O R), 150 publisher scripts (<= 8 publishes, equal "
         "bodies, clock earlier/equal/later, boundaries); thorough: 2500 forge, 4 messages x 9 masks, 1500 scripts (<= 30 publishes). "
         "non-trivial = a tampered/re-signed/forged message, or a publisher script with >= 2 publishes containing a clock reading not "
         "later than the previous timestamp")
@@ -112,6 +117,50 @@ def gen(tier, rng):
             for b in ("", "hello"):
                 for field in "nvktlb":
                     yield {"k": "remix", "signer": signer, "t0": t0, "now": now, "body": b, "field": field}
+    # sequences on ONE subscription: tampered / re-signed / damaged copies directly after their original, after a duplicate of it,
+    # after another valid message, before it
+    def H(f):
+        return [f[1], list(f), list(f), 0]
+
+    def variants(f):
+        ver, pk, t, l, b = f
+        return [[pk, list(f), [2, pk, t, l, b], 0], [pk, list(f), [1, (pk + 1) % 6, t, l, b], 0],
+                [pk, list(f), [1, pk, (t + 1) & U64, l, b], 0], [pk, list(f), [1, pk, t, (l + 1) & U64, b], 0],
+                [pk, list(f), [1, pk, t, l, (b + "x") if len(b) < 12 else "x"], 0],
+                [(pk + 1) % 6, list(f), list(f), 0], [pk, list(f), list(f), 1]]
+
+    sbases = [((1, 1, 1000, 0, "hello"), (1, 1, 1001, 0, "a")), ((1, 2, 0, 0, ""), (1, 3, 0, 0, ""))]
+    if not quick:
+        sbases += [((1, 3, U64, U64, "hello world!"), (1, 3, U64, 0, "b")), ((1, 0, 1 << 40, 7, "a"), (1, 5, 1 << 40, 7, "a"))]
+    for f, g in sbases:
+        for x in variants(f):
+            for pat in ([H(f), x], [H(f), H(f), x], [H(f), H(g), x], [x, H(f)], [H(f), x, H(g)], [H(f), x, H(f), x],
+                        [H(g), H(f), x, x, H(f)]):
+                for mode in "sb":
+                    yield {"k": "seq", "mode": mode, "msgs": pat}
+    for _ in range(150 if quick else 1500):
+        pool = []
+        for _ in range(rng.randint(1, 3)):
+            pool.append((1, rng.randrange(6), _near(rng, rng.choice([0, 1000, 1 << 40])), rng.choice([0, 1, 5]), rng.choice(BODIES)))
+        msgs, last = [], None
+        for _ in range(rng.randint(2, 10)):
+            r = rng.random()
+            if last is not None and r < 0.45:
+                msgs.append(rng.choice(variants(last)))           # a bad copy of the message just delivered
+            elif last is not None and r < 0.55:
+                msgs.append(H(last))                              # exact duplicate
+            elif r < 0.65:
+                msgs.append(rng.choice(variants(rng.choice(pool))))
+            else:
+                last = rng.choice(pool)
+                msgs.append(H(last))
+        yield {"k": "seq", "mode": rng.choice("sb"), "msgs": msgs}
+    for signer in range(2 if quick else 6):
+        for t0, now in ((1000, 500), (1000, 2000)) if quick else ((1000, 500), (1000, 1000), (1000, 2000), (0, 0), (U64 - 1, 5)):
+            for b in ("", "hello"):
+                for field in "nvktlb":
+                    for place in "adbm":
+                        yield {"k": "rseq", "signer": signer, "t0": t0, "now": now, "body": b, "field": field, "place": place}
     # publisher scripts
     for i in range(npub):
         t0 = _near(rng, rng.choice([0, 1000, 1 << 40, U64 - 3]))
@@ -134,6 +183,11 @@ def harness_line(c):
         return "bytes %d %d %d %s %s %d %d" % (c["pk"], c["t"], c["l"], bhex(c["body"]), c["op"], c["a"], c["m"])
     if c["k"] == "remix":
         return "remix %d %d %d %s %s" % (c["signer"], c["t0"], c["now"], bhex(c["body"]), c["field"])
+    if c["k"] == "seq":
+        return "seq %s %s" % (c["mode"], " ".join("%d %d %d %d %d %s %d %d %d %d %s %d" % (
+            sg, f1[0], f1[1], f1[2], f1[3], bhex(f1[4]), f2[0], f2[1], f2[2], f2[3], bhex(f2[4]), mut) for sg, f1, f2, mut in c["msgs"]))
+    if c["k"] == "rseq":
+        return "rseq %d %d %d %s %s %s" % (c["signer"], c["t0"], c["now"], bhex(c["body"]), c["field"], c["place"])
     return "pub %d %d %s" % (c["signer"], c["t0"], " ".join("%d %s" % (n, bhex(b)) for n, b in c["script"]))
 
 
@@ -167,7 +221,34 @@ def _script(s):
     return "[" + ";".join("(%d%%N, %d%%N)" % (n, bnum(b)) for n, b in s) + "]"
 
 
+def _specs(c):
+    return "[" + ";".join("(%d%%N, %s, %s, %s)" % (sg, _fields(f1), _fields(f2), "true" if mut else "false")
+                          for sg, f1, f2, mut in c["msgs"]) + "]"
+
+
+def _rseq_args(c):
+    return "%d%%N %d%%N %d%%N %d%%N %d%%N %d%%N" % (c["signer"], c["t0"], c["now"], bnum(c["body"]), "nvktlb".index(c["field"]),
+                                                 "adbm".index(c["place"]))
+
+
+def _group(g):
+    """`-` or `Yp:t:b,Yp:t:b` -> Gallina list of observations (a foreign key `?` gets an index no scenario key has)"""
+    if g == "-":
+        return "[]"
+    out = []
+    for tk in g.split(","):
+        if not tk.startswith("Y"):
+            raise ValueError("unexpected token " + tk)
+        p, t, b = tk[1:].split(":")
+        out.append("(%d%%N, %d%%N, %d%%N)" % (999999 if p == "?" else int(p), int(t), int(b)))
+    return "[" + ";".join(out) + "]"
+
+
 def coq_model(c):
+    if c["k"] == "seq":
+        return "model_line_seq %s %s" % ("true" if c["mode"] == "s" else "false", _specs(c))
+    if c["k"] == "rseq":
+        return "model_line_rseq " + _rseq_args(c)
     if c["k"] == "forge":
         return "model_line_forge %d%%N %s %s %s" % (c["signer"], _fields(c["f1"]), _fields(c["f2"]), "true" if c["sigmut"] else "false")
     if c["k"] == "bytes":
@@ -190,6 +271,18 @@ def _obs(impl):
 
 
 def coq_oracle(c, impl):
+    if c["k"] == "seq":
+        groups = impl.split()
+        if c["mode"] == "s":
+            return "check_step %s [%s]" % (_specs(c), ";".join(_group(g) for g in groups))
+        if len(groups) != 1:
+            raise ValueError("one group expected")
+        return "check_bulk %s %s" % (_specs(c), _group(groups[0]))
+    if c["k"] == "rseq":
+        groups = impl.split()
+        if len(groups) != 1:
+            raise ValueError("one group expected")
+        return "check_rseq %s %s" % (_rseq_args(c), _group(groups[0]))
     if c["k"] == "forge":
         return "check_forge %d%%N %s %s %s %s" % (c["signer"], _fields(c["f1"]), _fields(c["f2"]),
                                                   "true" if c["sigmut"] else "false", _obs(impl))
@@ -216,7 +309,17 @@ def _tampered(c):
     return c["f1"] != c["f2"] or c["signer"] != c["f2"][1] or c["sigmut"] == 1 or c["f2"][0] != 1
 
 
+def _spec_bad(m):
+    sg, f1, f2, mut = m
+    return f1 != f2 or sg != f2[1] or mut == 1 or f2[0] != 1
+
+
 def nontrivial(c, impl):
+    if c["k"] == "seq":
+        bad = [_spec_bad(m) for m in c["msgs"]]
+        return any(bad) and not all(bad)
+    if c["k"] == "rseq":
+        return c["field"] != "n"
     if c["k"] == "forge":
         return _tampered(c)
     if c["k"] == "bytes":
@@ -243,6 +346,17 @@ def shrink(c):
             for v in (0, 500, n // 2):
                 if v < n:
                     yield dict(c, script=s[:i] + [[v, b]] + s[i + 1:])
+    elif c["k"] == "seq":
+        ms = c["msgs"]
+        for i in range(len(ms)):
+            if len(ms) > 1:
+                yield dict(c, msgs=ms[:i] + ms[i + 1:])
+        for i, (sg, f1, f2, mut) in enumerate(ms):
+            for j in range(5):
+                if f2[j] != f1[j]:
+                    g2 = list(f2)
+                    g2[j] = f1[j]
+                    yield dict(c, msgs=ms[:i] + [[sg, f1, g2, mut]] + ms[i + 1:])
     elif c["k"] == "forge":
         for i in range(5):
             if c["f2"][i] != c["f1"][i]:
@@ -255,8 +369,18 @@ def shrink(c):
 
 def distribution(cases, impl):
     kinds, yielded, honest, tampered = {}, 0, 0, 0
+    seq_bad_after_original, seq_msgs = 0, 0
     for i, c in enumerate(cases):
         kinds[c["k"]] = kinds.get(c["k"], 0) + 1
+        if c["k"] == "seq":
+            ms = c["msgs"]
+            seq_msgs += len(ms)
+            for a, b in zip(ms, ms[1:]):
+                if not _spec_bad(a) and _spec_bad(b) and b[1] == a[1] and b[3] == 0:
+                    seq_bad_after_original += 1
+            continue
+        if c["k"] == "rseq":
+            continue
         if c["k"] == "forge":
             if _tampered(c):
                 tampered += 1
@@ -264,4 +388,5 @@ def distribution(cases, impl):
                 honest += 1
         if c["k"] not in ("pub",) and (impl.get(i) or "-").startswith("Y"):
             yielded += 1
-    return {"kinds": kinds, "forge_honest": honest, "forge_tampered": tampered, "messages_yielded_by_subscription": yielded}
+    return {"kinds": kinds, "forge_honest": honest, "forge_tampered": tampered, "messages_yielded_by_subscription": yielded,
+            "seq_messages": seq_msgs, "seq_bad_copy_directly_after_its_authentic_original": seq_bad_after_original}
